@@ -86,6 +86,8 @@ pub mod traversal;
 pub mod codegen_test;
 
 pub use font_data::FontData;
+#[cfg(googlefonts_fontations_verif)]
+pub use font_data::verif_hooks as font_data_verif_hooks;
 pub use offset::{Offset, ResolveNullableOffset, ResolveOffset};
 pub use offset_array::{ArrayOfNullableOffsets, ArrayOfOffsets};
 pub use read::{ComputeSize, FontRead, FontReadWithArgs, ReadArgs, ReadError, VarSize};
